@@ -175,7 +175,7 @@ void harness(void)
 #elif defined(UNIT_NAMED)
 	/* mpt_type_metatype_add / mpt_type_interface_add: names unique, too short names refused */
 	IN(int, in_used); IN(int, in_k); IN(int, in_same); IN(int, in_iface); IN(int, in_ipos);
-	char in_name[NLEN + 1], in_other[NLEN + 1];
+	char in_name[NLEN + 1], in_other[NLEN + 1]; V_FILL(in_name); V_FILL(in_other);
 	MPT_STRUCT(named_traits) *A, *B; const MPT_STRUCT(named_traits) *ret; size_t nlen; int i;
 	in_name[NLEN] = 0; in_other[NLEN] = 0;
 	nlen = strlen(in_name);
